@@ -8,12 +8,13 @@ import os
 import sys
 
 _spec = os.environ.get("EXECNET_VERIF", "")
-if _spec.startswith("noise:") and hasattr(sys, "monitoring"):
+if _spec.startswith(("noise:", "noisegc:")) and hasattr(sys, "monitoring"):
     try:
         import random
         import time
 
-        _, _seed, _p, _ms = _spec.split(":")
+        _kind, _seed, _p, _ms = _spec.split(":")
+        _gc = _kind == "noisegc"
         _rng = random.Random(int(_seed) ^ os.getpid())
         _p = float(_p)
         _ms = float(_ms) / 1000.0
@@ -27,6 +28,11 @@ if _spec.startswith("noise:") and hasattr(sys, "monitoring"):
             x = _rng.random()
             if x < _p:
                 time.sleep(0 if x < _p * 0.7 else _rng.random() * _ms)
+            elif _gc and x > 1 - _p / 4:
+                # ("noisegc": a cyclic collection may start at any line, as it may in any program that allocates)
+                import gc
+
+                gc.collect()
             return None
 
         _mon.use_tool_id(_TOOL, "verif-worker-noise")
